@@ -5,5 +5,5 @@ cd "$(dirname "$0")/.."
 python3 tools/gen_consts.py
 python3 tools/assemble.py
 cd coq && coq_makefile -f _CoqProject -o Makefile >/dev/null && timeout 3000 make -k -j16 >/dev/null 2>make.log || { tail -40 make.log; echo "coq build had failures (checks will report them)"; }
-cd ../ocaml && make -s all
+cd .. && tools/build_models.sh
 echo setup done
